@@ -4,12 +4,12 @@
 package c10
 
 import (
+	"bytes"
 	"bufio"
 	"context"
 	"encoding/json"
 	"errors"
 	"fmt"
-	"io"
 	"maps"
 	"math/rand/v2"
 	"os"
@@ -179,6 +179,11 @@ func classOf(err error) string {
 
 var ids = []string{"r0", "r1", "r2", "r3"}
 
+// typeFor maps an id to its resource type. In the parent (rejecting-store part) everything is one kind; the crash workers put the ids
+// of their second goroutine into another kind, so that the two goroutines write through different collections (each with its own lock)
+// into the one backing store and its marshaler at the same time.
+var typeFor = func(string) string { return res.TypeA }
+
 // nextOp draws op k for worker goroutine g (which owns ids[g*2 : g*2+2]) given the current stored value of the chosen id.
 func nextOp(rng *rand.Rand, k, g int, get func(id string) (resource.Resource, bool)) (op, resource.Resource) {
 	id := ids[g*2+rng.IntN(2)]
@@ -202,7 +207,7 @@ func nextOp(rng *rand.Rand, k, g int, get func(id string) (resource.Resource, bo
 
 	switch o.Kind {
 	case "create":
-		r = res.NewA("ns", id)
+		r = res.New("ns", typeFor(id), id)
 
 		if rng.IntN(3) == 0 {
 			r.Metadata().Finalizers().Add("f0")
@@ -242,7 +247,7 @@ func nextOp(rng *rand.Rand, k, g int, get func(id string) (resource.Resource, bo
 		if rng.IntN(5) == 0 {
 			// a hand-built object: everything the store looks at is copied over, but the object is a new one (the constructor
 			// stamps its own creation / update times); the store keeps the resource's creation time
-			nr := res.NewA("ns", id)
+			nr := res.New("ns", typeFor(id), id)
 			nr.Metadata().SetVersion(r.Metadata().Version())
 			_ = nr.Metadata().SetOwner(r.Metadata().Owner())
 			nr.Metadata().SetPhase(r.Metadata().Phase())
@@ -298,7 +303,7 @@ func apply(ctx context.Context, st state.CoreState, o op, r resource.Resource) a
 		err := st.Update(ctx, r, state.WithUpdateOwner(o.Owner), state.WithExpectedPhaseAny())
 		a.Class = classOf(err)
 	case "destroy":
-		err := st.Destroy(ctx, resource.NewMetadata("ns", res.TypeA, o.ID, resource.VersionUndefined), state.WithDestroyOwner(o.Owner))
+		err := st.Destroy(ctx, resource.NewMetadata("ns", typeFor(o.ID), o.ID, resource.VersionUndefined), state.WithDestroyOwner(o.Owner))
 		a.Class = classOf(err)
 
 		return a
@@ -315,6 +320,14 @@ func apply(ctx context.Context, st state.CoreState, o op, r resource.Resource) a
 // ---- worker (child process) ------------------------------------------------------------------------------------------------
 
 func worker() {
+	typeFor = func(id string) string {
+		if id == ids[2] || id == ids[3] {
+			return res.TypeB
+		}
+
+		return res.TypeA
+	}
+
 	path, marshaler := os.Getenv("VERIF_C10_DB"), os.Getenv("VERIF_C10_MARSHALER")
 	seed, _ := strconv.ParseUint(os.Getenv("VERIF_C10_SEED"), 10, 64)
 	from, _ := strconv.Atoi(os.Getenv("VERIF_C10_FROM"))
@@ -354,15 +367,18 @@ func worker() {
 	// dump what was recovered from the file - unless told not to: then the very first accesses to the reopened (non-empty) store are
 	// the concurrent operations of the two goroutines below (the lazy load races with them)
 	if os.Getenv("VERIF_C10_NODUMP") == "" {
-		list, err := st.List(ctx, resource.NewMetadata("ns", res.TypeA, "", resource.VersionUndefined))
-		if err != nil {
-			fmt.Println("FATAL list:", err)
-			os.Exit(3)
-		}
-
 		dump := map[string]val{}
-		for _, it := range list.Items {
-			dump[it.Metadata().ID()] = snap(it)
+
+		for _, typ := range []string{res.TypeA, res.TypeB} {
+			list, err := st.List(ctx, resource.NewMetadata("ns", typ, "", resource.VersionUndefined))
+			if err != nil {
+				fmt.Println("FATAL list:", err)
+				os.Exit(3)
+			}
+
+			for _, it := range list.Items {
+				dump[it.Metadata().ID()] = snap(it)
+			}
 		}
 
 		emit("DUMP", dump)
@@ -394,7 +410,7 @@ func worker() {
 				}
 
 				o, r := nextOp(rng, k, g, func(id string) (resource.Resource, bool) {
-					cur, err := st.Get(ctx, resource.NewMetadata("ns", res.TypeA, id, resource.VersionUndefined))
+					cur, err := st.Get(ctx, resource.NewMetadata("ns", typeFor(id), id, resource.VersionUndefined))
 
 					return cur, err == nil
 				})
@@ -770,6 +786,8 @@ type childRun struct {
 	fatal   string
 	// signaled: the child died from a signal (the self-kill / kernel-injected kill landed)
 	signaled bool
+	// race: the race detector's report if the worker was stopped by one
+	race string
 }
 
 // runChild starts a worker and kills it when the trigger line shows up (kind "INTENT"/"ACK", index k); k < 0 = let it finish.
@@ -806,7 +824,9 @@ func runChild(path, marshaler string, seed uint64, from, n int, killKind string,
 		return nil, err
 	}
 
-	cmd.Stderr = io.Discard
+	var stderr bytes.Buffer
+
+	cmd.Stderr = &stderr
 
 	if err := cmd.Start(); err != nil {
 		return nil, err
@@ -864,6 +884,14 @@ func runChild(path, marshaler string, seed uint64, from, n int, killKind string,
 		// strace re-raises the tracee's fatal signal on itself, or exits with 128+signal
 		if ee.ExitCode() == 128+int(syscall.SIGKILL) {
 			run.signaled = true
+		}
+
+		// the worker runs under the race detector with halt_on_error: exit code 66 = a data race in the code under test
+		if ee.ExitCode() == 66 || strings.Contains(stderr.String(), "WARNING: DATA RACE") {
+			run.race = stderr.String()
+			if len(run.race) > 6000 {
+				run.race = run.race[:6000]
+			}
 		}
 	}
 
@@ -1034,6 +1062,13 @@ func crashes(c *vk.C, dir string) {
 				cold := cy > 0 && ji%2 == 1
 
 				run, err := runChild(path, jb.marshaler, jb.seed, from, segment, kind, killK, cold)
+				if err == nil && run.race != "" {
+					c.Violation("worker-data-race", map[string]any{"marshaler": jb.marshaler, "report": run.race, "history": history,
+						"note": "the race detector stopped a crash worker: two goroutines writing through different collections into one backing store raced"})
+
+					return
+				}
+
 				if err == nil && run.fatal != "" && strings.HasPrefix(kind, "STRACEERR-") && strings.Contains(run.fatal, "input/output error") {
 					// the injected EIO hit bbolt while it opened (or initialised) the file: nothing was acknowledged; a file that was
 					// being created is bbolt's business, so the job ends here
